@@ -6,6 +6,7 @@ CONSTANTS
   MaxLen = 0
   MaxTraffic = 0
   Reuse = "statement"
+  TripAge = 1
   Paths = {"whole", "wholeOther", "res"}
   Norm = "-"
   Defaulting = {}
